@@ -75,6 +75,9 @@ def models():
     def m_identity(ex, path, a):
         return a[0]
 
+    def m_load(ex, path, a):
+        return ex.load(path, a[0])
+
     def m_guard(ex, path, a):
         return ms.Ref("__conn", ())
 
@@ -134,7 +137,7 @@ def models():
         return ms.Enum(1, {"Err": r.payloads["Err"]})
 
     def m_write_all(ex, path, a):
-        events(path).append(("write_all", ex.load(path, a[0]), a[1]))
+        events(path).append(("write_all", ex.load(path, a[0]), ex.load(path, a[1])))
         return fresh_result("write_all")
 
     def m_flush(ex, path, a):
@@ -200,7 +203,7 @@ def models():
         (r"as Try>::branch$", m_branch),
         (r"as FromResidual<.*>>::from_residual$", m_from_residual),
         (r"<std::string::String as Add<&str>>::add$", m_identity),
-        (r"String::as_bytes$", m_identity),
+        (r"String::as_bytes$", m_load),
         (r"as std::io::Write>::write_all$", m_write_all),
         (r"as std::io::Write>::flush$", m_flush),
         (r"as BufRead>::read_until$", m_read_until),
@@ -301,8 +304,19 @@ def run(name, repo, timeout_s):
         solver.push(); solver.add(*base); solver.add(*pc); solver.add(neg)
         queries += 1
         r = solver.check()
-        if r == z3.sat and failed is None:
+        if r == z3.sat and (failed is None or not failed[2]):
             m = solver.model()
+            clean = not flags
+            if flags:
+                # prefer a witness the public API can produce: at most one of the three mode flags
+                solver.add(z3.AtMost(*flags.values(), 1))
+                queries += 1
+                if solver.check() == z3.sat:
+                    m = solver.model()
+                    clean = True
+            if failed is not None and not clean:
+                solver.pop()
+                return
             ev = lambda t: m.eval(t, model_completion=True)  # noqa: E731
             w = {k: ev(v).as_long() for k, v in (("conn_reader", cr_p), ("conn_writer", cw_p), ("call_reader", sr_p),
                                                  ("call_writer", sw_p), ("call_request", rq_p), ("call_method", me_p))}
@@ -312,7 +326,7 @@ def run(name, repo, timeout_s):
             for nm in ("reply_continues_present", "reply_error_present", "reply_parameters_present"):
                 w[nm] = ev(z3.Int(nm)).as_long()
             w["reply_continues_value"] = bool(ev(z3.Bool("reply_continues_value")))
-            failed = (label, w)
+            failed = (label, w, clean)
         solver.pop()
         if r == z3.unknown:
             raise Unsupported("solver gave no answer (%s)" % label)
@@ -416,7 +430,7 @@ def run(name, repo, timeout_s):
            "checks_total": queries, "verification_time_s": round(time.time() - t0, 2), "oracle_ok": [], "covers": [],
            "covers_unsat": []}
     if failed:
-        label, w = failed
+        label, w, _clean = failed
         vals = [0 if fn == "send" else 1, w["conn_reader"], w["conn_writer"], w["call_reader"], w["call_writer"], w["call_request"],
                 w["call_method"], int(w.get("oneway", False)), int(w.get("more", False)), int(w.get("upgrade", False)),
                 w["read_outcome"], w["reply_continues_present"], int(w["reply_continues_value"]), w["reply_error_present"],
